@@ -1,7 +1,9 @@
 (* Context bridge: the two models of typelib.ctx.TypeContext.
 
      Model/Build.v   ctx = association list keyed by Core.ty (newest first), find_key, ctx_set, and the PURE
-                     lookup getitem with the three routes of __missing__ (direct hit; unwrap k; fref k)
+                     lookup getitem with the three routes of __missing__ (direct hit; unwrap k; fref k);
+                     annotations are MODULE-BLIND: TRef c is every ForwardRef naming class c, whatever module it
+                     was written in
                      -- used by build_node / build_loop and by every routing proof (C05 C07 C11 C15);
      Model/Ctx.v     C16's executable state machine of the real class (dict + __missing__ WITH its memo
                      write + get + in), parametric in a key family, proved to refine a write-once
@@ -19,19 +21,22 @@ Require Import TL.Model.Core TL.Model.Build.
    missed.  TRefTo k stands for that reference; keys_wf below says no context stores such a key. *)
 Definition fref_tot (k : ty) : ty := match fref k with Some r => r | None => TRefTo k end.
 
-(* C16's model at the key family (ty, ty_eqb, is_ref, unwrap, fref_tot), values = routines *)
+(* ctx._refers_to(r, k): the stored reference r evaluates to k (Build.evaluate = refs.evaluate) *)
+Definition names_ty (r k : ty) : bool := ty_eqb (evaluate r) k.
+
+(* C16's model at the key family (ty, ty_eqb, is_ref, unwrap, fref_tot, names_ty), values = routines *)
 Definition cst : Type := Ctx.st ty routine.
 Definition cop : Type := Ctx.op ty routine.
 Definition cout : Type := Ctx.out routine.
 Definition cfind : cst -> ty -> option routine := Ctx.find ty routine ty_eqb.
 Definition cset : cst -> ty -> routine -> cst := Ctx.set ty routine ty_eqb.
-Definition cgetitem : nat -> cst -> ty -> Ctx.res routine * cst := Ctx.getitem ty routine ty_eqb is_ref unwrap fref_tot.
-Definition cstep : nat -> cst -> cop -> cout * cst := Ctx.step ty routine ty_eqb is_ref unwrap fref_tot.
-Definition crun : nat -> cst -> list cop -> list cout := Ctx.run ty routine ty_eqb is_ref unwrap fref_tot.
-Definition cspec_lookup : cst -> ty -> option routine := Ctx.spec_lookup ty routine ty_eqb is_ref unwrap fref_tot.
-Definition cspec_run : cst -> list cop -> list cout := Ctx.spec_run ty routine ty_eqb is_ref unwrap fref_tot.
-Definition cspec_final : cst -> list cop -> cst := Ctx.spec_final ty routine ty_eqb is_ref unwrap fref_tot.
-Definition cops_ok : cst -> list cop -> bool := Ctx.ops_ok ty routine ty_eqb is_ref unwrap fref_tot.
+Definition cgetitem : nat -> cst -> ty -> Ctx.res routine * cst := Ctx.getitem ty routine ty_eqb is_ref unwrap fref_tot names_ty.
+Definition cstep : nat -> cst -> cop -> cout * cst := Ctx.step ty routine ty_eqb is_ref unwrap fref_tot names_ty.
+Definition crun : nat -> cst -> list cop -> list cout := Ctx.run ty routine ty_eqb is_ref unwrap fref_tot names_ty.
+Definition cspec_lookup : cst -> ty -> option routine := Ctx.spec_lookup ty routine ty_eqb is_ref unwrap fref_tot names_ty.
+Definition cspec_run : cst -> list cop -> list cout := Ctx.spec_run ty routine ty_eqb is_ref unwrap fref_tot names_ty.
+Definition cspec_final : cst -> list cop -> cst := Ctx.spec_final ty routine ty_eqb is_ref unwrap fref_tot names_ty.
+Definition cops_ok : cst -> list cop -> bool := Ctx.ops_ok ty routine ty_eqb is_ref unwrap fref_tot names_ty.
 
 (* ---- translation of states and histories ---- *)
 (* a Build context (newest binding first, older bindings of a key shadowed) as the dict it denotes *)
@@ -47,9 +52,12 @@ Fixpoint ctx_of (ops : list cop) (acc : ctx) : ctx :=
   | _ :: r => ctx_of r acc
   end.
 
-(* every reference key of the context is one refs.forwardref can build for a key it is asked for *)
+(* every reference key of the context is THE reference refs.forwardref builds for the key it evaluates to.
+   Build.v cannot say more: being module-blind it has one reference per named type, so the scan over the stored
+   references that the real __missing__ runs after missing forwardref(key) can only meet that same reference
+   again.  (TRefTo (TName c) -- a second spelling of TRef c -- is what this excludes.) *)
 Definition ref_wf (t : ty) : bool :=
-  match t with TRefTo t' => match fref t' with Some _ => true | None => false end | _ => true end.
+  if is_ref t then match fref (evaluate t) with Some r => ty_eqb r t | None => false end else true.
 Definition keys_wf (cx : ctx) : bool := forallb (fun e => ref_wf (fst e)) cx.
 
 (* what context[k] / context.get(k, d) show, from the Build side *)
